@@ -16,6 +16,11 @@ register_simp_attr rs_code
 /-- equations of the Rust-fragment interpreter -/
 register_simp_attr rs_eval
 
+/-- the equations that unfold ONE iteration of a loop (`evalWhile`, `evalFor`): kept out of `rs_eval` so
+    that normalising a function stops at its loops; add `rs_loop` to unroll a loop with a concrete
+    number of iterations -/
+register_simp_attr rs_loop
+
 open Lean Meta Elab Command in
 /-- add all equation lemmas of the given functions to the simp set `rs_eval` -/
 elab "rs_register_eqns " ids:ident+ : command => do
@@ -25,5 +30,17 @@ elab "rs_register_eqns " ids:ident+ : command => do
       | throwError "no equation lemmas for {declName}"
     let some ext ← liftCoreM <| getSimpExtension? `rs_eval
       | throwError "simp set rs_eval is not registered"
+    for e in eqns do
+      liftTermElabM <| addSimpTheorem ext e (post := true) (inv := false) AttributeKind.global (prio := 1000)
+
+open Lean Meta Elab Command in
+/-- add all equation lemmas of the given functions to the simp set `rs_loop` -/
+elab "rs_register_loop_eqns " ids:ident+ : command => do
+  for id in ids do
+    let declName ← liftCoreM <| realizeGlobalConstNoOverloadWithInfo id
+    let some eqns ← liftTermElabM <| getEqnsFor? declName
+      | throwError "no equation lemmas for {declName}"
+    let some ext ← liftCoreM <| getSimpExtension? `rs_loop
+      | throwError "simp set rs_loop is not registered"
     for e in eqns do
       liftTermElabM <| addSimpTheorem ext e (post := true) (inv := false) AttributeKind.global (prio := 1000)
